@@ -4,6 +4,7 @@ import (
 	"time"
 
 	"verifsim/c17"
+	"verifsim/c20"
 )
 
 func init() {
@@ -20,6 +21,21 @@ func init() {
 				"the reflective dump (all exported fields, decorations, spacing, Path, pointer identity, positions for ast) is the meaning of 'tree unmodified' and 'equal result'",
 				"injected errors are compared with errors.Is, never by message",
 				"single-fault enumeration is exhaustive per workload; workloads and multi-fault sequences are sampled",
+			},
+		}
+	}})
+	register(&Engine{Prop: "C20", Run: c20.Run, Watchdog: 120 * time.Second, Info: func() map[string]interface{} {
+		return map[string]interface{}{
+			"rule": "one run = one history over a hand-built decorator.Package (1-6 generated files in 1-3 simulated directories, tape-chosen Syntax order, bystander files on the disk): " +
+				"[edits] Save [edits] Save ... final fault-free Save, each Save with a tape-chosen fault (resolver failure at file i by path / by k-th call / natural not-found, disk error or torn write at the j-th write). " +
+				"evaluations = Save calls executed; a case is (package hash, Syntax order, resolver kind, save index, fault kind, fault position) and is non-trivial because every Save is checked against the twin package and the disk model; distinct by 64-bit hash over all processes.",
+			"real": []string{"decorator.Package.save via the verif hook (and the exported SaveWithResolver on a real scratch directory in 1/8 of the runs)", "decorator.Decorator.ParseFile with goast over guess", "decorator.Restorer.Fprint with import management", "guess / simple / gobuild RestorerResolver", "go/parser", "go/format"},
+			"stub": []string{"disk behind the writeFile seam (map + journal; error-before-any-byte and torn-write faults)", "gobuild FindPackage (map-backed)", "packages.Package (only PkgPath and Fset set)"},
+			"not_run": []string{"decorator.Load / packages.Load (go list subprocess)", "Package.Save() with the gopackages resolver"},
+			"assumptions": []string{
+				"'the import-managed print of that file' is Restorer.Fprint of an independently constructed twin tree with a fresh restorer per file",
+				"a lying disk (silently lost or misdirected writes) is not simulated; whether later files are attempted after a write error is not demanded",
+				"crash atomicity of Save is not promised by C20 and not checked",
 			},
 		}
 	}})
